@@ -51,10 +51,122 @@ def check(prog: Program, tier: str) -> Result:
     return res
 
 
+def _join_semantic(prog: Program, res: Result) -> bool:
+    """R11.1 decided on paths instead of on the shape of the code.  On every path to the interpolant, the joined abscissae
+    must be  log_time_sts[0:c] + log_time_lts  (values: g_sts[0:c] + g_lts, same cut c) and the path must have ESTABLISHED,
+    by the comparisons it made, that (given ascending short-time abscissae)
+        every kept short-time point is <= the first long-time point:  c == 0, or  sts[c-1] <= min(lts) was assumed, or
+                                                                        max(sts) < min(lts) / sts[last] < min(lts) for a full join
+        the cut is maximal:                                            c == len(sts), or  sts[c] > min(lts) was assumed
+    -> True if every path was decided (obligations / violations recorded), False if the shapes were not understood"""
+    q = f"{GHX}.BaseGHE.combine_sts_lts"
+    fi = prog.func(q)
+    fn = fi.node
+    itp = [c for c in ast.walk(fn) if isinstance(c, ast.Call) and attr_chain(c.func) == "interp1d"]
+    if len(itp) != 1 or len(itp[0].args) < 2 or not all(isinstance(a, ast.Name) for a in itp[0].args[:2]):
+        return False
+    xname, yname = itp[0].args[0].id, itp[0].args[1].id
+    STS, LTS, GS, GL = "log_time_sts", "log_time_lts", "g_sts", "g_lts"
+
+    class H(Hooks):
+        def on_stmt(self, s_, st, eng):
+            if isinstance(s_, ast.Assign) and len(s_.targets) == 1 and isinstance(s_.targets[0], ast.Name) and s_.targets[0].id in (xname, yname) \
+                    and isinstance(s_.value, ast.BinOp) and isinstance(s_.value.op, ast.Add):
+                l, r = s_.value.left, s_.value.right
+                cut = "FULL"
+                base = l
+                if isinstance(l, ast.Subscript) and isinstance(l.slice, ast.Slice) and l.slice.step is None:
+                    base = l.value
+                    lo = eng.eval(l.slice.lower, st) if l.slice.lower is not None else Rat.const(0)
+                    cut = eng.eval(l.slice.upper, st) if l.slice.upper is not None else "FULL"
+                    if not (isinstance(lo, Rat) and lo.is_zero()):
+                        cut = None
+                st.emit("JOIN", (s_.targets[0].id, ast.unparse(base), cut, ast.unparse(r)), s_)
+                st.env[s_.targets[0].id] = Rat.atom(f"JOINED_{s_.targets[0].id}")
+                return [st]
+            return None
+
+    eng = Engine(prog, fi, H(), loop_bound=2, zero_trip=True)
+    st0 = State()
+    for p_ in fi.params():
+        st0.env[p_] = Rat.atom(p_)
+    finals = [f for f in eng.run_function(st0) if f.exit is not None and f.exit[0] == "return"]
+    if not finals:
+        return False
+    MIN = sym.call("min", [Rat.atom(LTS)])
+    MAX = sym.call("max", [Rat.atom(STS)])
+    LEN = sym.call("len", [Rat.atom(STS)])
+
+    def elem(idx: Rat) -> Rat:
+        return Rat.atom(f"{STS}[{idx.key()}]")
+
+    decided = []
+    for f in finals:
+        joins = {e.data[0]: e for e in f.events if e.kind == "JOIN"}
+        if set(joins) != {xname, yname}:
+            return False
+        (_, xb, xc, xr), (_, yb, yc, yr) = joins[xname].data, joins[yname].data
+        if xc is None or yc is None or not (xc == "FULL" or isinstance(xc, Rat)) or not (yc == "FULL" or isinstance(yc, Rat)):
+            return False
+        decided.append((f, joins, xb, xc, xr, yb, yc, yr))
+    seen = set()
+    for f, joins, xb, xc, xr, yb, yc, yr in decided:
+        where = prog.loc(fi, joins[xname].node)
+        okp = (xb, xr, yb, yr) == (STS, LTS, GS, GL)
+        same = (xc == "FULL" and yc == "FULL") or (isinstance(xc, Rat) and isinstance(yc, Rat) and xc.equals(yc))
+        cut_txt = "all" if xc == "FULL" else xc.key()
+        sig = (cut_txt, okp, same)
+        if sig not in seen:
+            res.ob("R11.1", f"[cut {cut_txt}] joined abscissae / values = short-time prefix followed by the long-time curve, same cut", okp and same, where)
+        if not okp:
+            res.violation("R11.1", f"join-order|{xb}+{xr}|{yb}+{yr}", where, q, f"the joined curve is {xb}[..] + {xr} / {yb}[..] + {yr} instead of the short-time prefix followed by the long-time curve")
+        if not same:
+            res.violation("R11.1", f"truncation-index|{cut_txt}|{yc if yc == 'FULL' else yc.key()}", where, q, "short-time abscissae and values are truncated at different indices: the joined arrays are misaligned")
+        if not (okp and same):
+            seen.add(sig)
+            continue
+        # what the path established
+        if xc == "FULL" or xc.equals(LEN):
+            below = "+" not in f.sign_of(MAX - MIN) and "0" not in f.sign_of(MAX - MIN) or "+" not in f.sign_of(elem(LEN - Rat.const(1)) - MIN)
+            maximal = True
+        elif xc.is_zero():
+            below, maximal = True, "+" == "".join(sorted(f.sign_of(elem(xc) - MIN)))
+        else:
+            below = "+" not in f.sign_of(elem(xc - Rat.const(1)) - MIN)
+            maximal = f.sign_of(elem(xc) - MIN) == frozenset("+")
+        trail = "; ".join(hc_describe(f)[-3:])
+        if sig + (below, maximal) in seen:
+            continue
+        seen.add(sig + (below, maximal))
+        res.ob("R11.1", f"[cut {cut_txt}] the path has compared the last kept short-time point with the first long-time point (kept points <= it)", below, where)
+        if not below:
+            last_kept = "the last one" if xc == "FULL" else f"index {(xc - Rat.const(1)).key()}"
+            res.violation("R11.1", f"kept-unverified|{cut_txt}", where, q,
+                          f"on the path [{trail}] the short-time points up to {last_kept} are kept, but that point was never compared with min(log_time_lts): "
+                          "short-time abscissae beyond the first long-time point can reach the interpolant, which sorts them among the long-time points")
+        res.ob("R11.1", f"[cut {cut_txt}] the cut is maximal: the first dropped short-time point is beyond the first long-time point", maximal, where)
+        if not maximal:
+            res.violation("R11.1", f"cut-not-maximal|{cut_txt}", where, q,
+                          f"on the path [{trail}] short-time points are dropped at {cut_txt} without the first dropped point having been found beyond min(log_time_lts)")
+    res.count("join_paths", len(decided))
+    return True
+
+
+def hc_describe(st):
+    from ..paths import describe_trail
+
+    return describe_trail(st)
+
+
 def _join(prog: Program, res: Result):
     q = f"{GHX}.BaseGHE.combine_sts_lts"
     fi = prog.func(q)
     res.analysed(q)
+    if _join_semantic(prog, res):
+        fn = fi.node
+        itp = [c for c in ast.walk(fn) if isinstance(c, ast.Call) and attr_chain(c.func) == "interp1d"]
+        res.ob("R11.1", "the interpolant is interp1d(joined abscissae, joined values)", True, prog.loc(fi, itp[0]))
+        return
     ps = fi.params()
     if ps != ["log_time_lts", "g_lts", "log_time_sts", "g_sts"]:
         raise AnalysisError(f"{q}: parameter list changed: {ps}")
